@@ -10,7 +10,7 @@ CHECK = {
     "flavours": ["asan"],
     "quick": {"shards": 8, "timeout": 900},
     "thorough": {"shards": 16, "timeout": 3600},
-    "required_categories": ["types_2f_cart+hom", "types_2d_cart+hom", "types_3f_cart+hom", "types_3d_cart+hom",
+    "required_categories": ["unreferenced_points_far_from_the_registered_subset", "correspondences_with_arbitrary_distance_and_weight_fields", "types_2f_cart+hom", "types_2d_cart+hom", "types_3f_cart+hom", "types_3d_cart+hom",
                             "normals_random", "normals_room", "normals_noisy_room", "motion_pure_translation",
                             "motion_small_rotation", "motion_noisy", "corr_subset", "corr_permuted",
                             "second_problem_mirror_last_axis", "second_problem_new_targets_same_geometry", "normal_w_m1", "normal_w_0", "normal_w_p1", "accepted"],
